@@ -260,6 +260,17 @@ fn gen_keys(rng: &mut Rng, alg: &GenerateParams) -> Vec<ZKey> {
     v
 }
 
+/// One of the repository's RSA test keys (ring cannot generate RSA keys) as a combined signing key.
+fn rsa_keys(rng: &mut Rng) -> Option<Vec<ZKey>> {
+    let stem = *rng.pick(&["Ktest.+008+60616", "Ktest.+010+46731"]);
+    let base = format!("/repo/test-data/dnssec-keys/{}", stem);
+    let pubt = std::fs::read_to_string(format!("{}.key", base)).ok()?;
+    let privt = std::fs::read_to_string(format!("{}.private", base)).ok()?;
+    let rec = domain::dnssec::common::parse_from_bind::<Vec<u8>>(&pubt).ok()?;
+    let secret = SecretKeyBytes::parse_from_bind(&privt).ok()?;
+    Some(vec![ZKey { secret, dnskey: rec.data().clone() }])
+}
+
 fn gen_denial(rng: &mut Rng) -> Denial {
     match rng.below(3) {
         0 => Denial::Nsec,
@@ -360,7 +371,8 @@ fn build_world(rng: &mut Rng) -> Result<(World, WorldSpec), String> {
     fill_leaf(rng, &mut odd, &nm(&[b"www"], &sec_apex));
     // a second secure zone to chase CNAMEs into
     let sec2_apex = nm(&[b"secure2"], &tld_apex);
-    let mut sec2 = base_zone(&sec2_apex, true, gen_keys(rng, &GenerateParams::EcdsaP256Sha256), gen_denial(rng));
+    let sec2_keys = if rng.chance(1, 3) { rsa_keys(rng) } else { None }.unwrap_or_else(|| gen_keys(rng, &GenerateParams::EcdsaP256Sha256));
+    let mut sec2 = base_zone(&sec2_apex, true, sec2_keys, gen_denial(rng));
     fill_leaf(rng, &mut sec2, &nm(&[b"www"], &sec_apex));
     sec.insert(&nm(&[b"out2"], &sec_apex), T_CNAME, 60, vec![nm(&[b"www"], &sec2_apex)]);
     // an unsigned CNAME whose target is reached through a signed DNAME and ends in signed data
@@ -384,7 +396,8 @@ fn build_world(rng: &mut Rng) -> Result<(World, WorldSpec), String> {
     }
     let rk = &zones[0].keys[0].dnskey;
     let anchor_text = format!(". 3600 IN DNSKEY {} 3 {} {}\n", rk.flags(), rk.algorithm().to_int(), b64::enc64(rk.public_key()));
-    Ok((World { zones, anchor_text }, WorldSpec { leaf_algs: vec!["p256", "none", odd_alg, "p256"] }))
+    let sec2_alg = if zones[5].keys[0].dnskey.algorithm().to_int() == 13 { "p256" } else { "rsa" };
+    Ok((World { zones, anchor_text }, WorldSpec { leaf_algs: vec!["p256", "none", odd_alg, sec2_alg] }))
 }
 
 // ----------------------------------------------------------- responder ----
@@ -1220,6 +1233,10 @@ fn one_world(c: &mut Ctx, rt: &tokio::runtime::Runtime, fam: &str, idx: u64) {
             return;
         }
     };
+    if spec.leaf_algs[3] == "rsa" {
+        c.count("worlds_with_rsa_signed_zone", 1);
+    }
+    c.count("worlds", 1);
     let world = Arc::new(world);
     let denials: Vec<String> = world.zones.iter().map(|z| format!("{}:{}", w::name_text(&z.apex), match &z.denial { Denial::Nsec => "nsec".to_string(), Denial::Nsec3 { opt_out, iterations, .. } => format!("nsec3(it={},optout={})", iterations, opt_out) })).collect();
     let qs = queries(&world);
